@@ -542,6 +542,34 @@ func runC18(initial uint32, ops []c18Op, maxStr int) (vs []Violation, stats map[
 			if !exact {
 				stats["truncated_inside_a_field"]++
 			}
+			// Close "resets the Decoder to be reused again for a new header block", whatever it
+			// returned: the same decoder now gets a complete block (from a fresh encoder, so it
+			// refers to nothing the cut block may or may not have left in the table), one octet
+			// at a time or in two pieces
+			// ... first a short block (one small field), then the whole list again
+			for _, next := range [][]rhpack.HeaderField{{{Name: ":method", Value: "GET"}}, op.Fields} {
+				got = nil
+				wire.Reset()
+				e4 := rhpack.NewEncoder(&wire)
+				for _, f := range next {
+					e4.WriteField(f)
+				}
+				blk2 := append([]byte(nil), wire.Bytes()...)
+				var werr2 error
+				step := 1
+				if cut%2 == 1 && len(blk2) > 1 {
+					step = (len(blk2) + 1) / 2
+				}
+				for i := 0; i < len(blk2) && werr2 == nil; i += step {
+					_, werr2 = d.Write(blk2[i:min(i+step, len(blk2))])
+				}
+				cerr2 := d.Close()
+				if werr2 != nil || cerr2 != nil || !sameFields(got, next) {
+					bad("decoder_unusable_after_truncation", "a decoder whose previous block was cut after %d of %d octets (Close: %v) did not decode the next, complete block of %d fields (%d octets): Write %v, Close %v, %d fields emitted", cut, len(blk), cerr, len(next), len(blk2), werr2, cerr2, len(got))
+					return
+				}
+			}
+			stats["decoder_reused_after_truncation"]++
 		case "helper":
 			var o1, o2 bytes.Buffer
 			_, e1 := rhpack.HuffmanDecode(&o1, op.Raw)
@@ -607,5 +635,5 @@ func runC18(initial uint32, ops []c18Op, maxStr int) (vs []Violation, stats map[
 
 func init() {
 	register(&CheckDef{ID: "C18", Level: "exploration", Engine: "B", Draw: drawC18,
-		Rule: "engine B, component level (the proxy does not import pkg/http2/hpack): 1-12 operations on an encoder / decoder pair: header blocks (0-8 fields from a small name/value alphabet so that indexing, eviction and Huffman coding are exercised; any bytes in values; values larger than the table; sensitive fields) delivered to the decoder in fragments cut at seeded offsets (also 1 byte at a time), table-size limits (0, 1, 32, 33, 4096, 4097, 65536, random) flowing back to the encoder after 0-2 further blocks, truncation (Close after k bytes of a block), arbitrary byte strings. Oracle: decoded == encoded (order, sensitivity), fragmented == whole-block decoding, encoder and decoder dynamic tables identical and within the permitted size after every block, truncation inside a field rejected with only complete fields emitted, no panic; arbitrary bytes: same result as x/net hpack v0.19.0 (differential, sampled - a pure function of the input). Distinct: distinct operation sequences."})
+		Rule: "engine B, component level (the proxy does not import pkg/http2/hpack): 1-12 operations on an encoder / decoder pair: header blocks (0-8 fields from a small name/value alphabet so that indexing, eviction and Huffman coding are exercised; any bytes in values; values larger than the table; sensitive fields) delivered to the decoder in fragments cut at seeded offsets (also 1 byte at a time), table-size limits (0, 1, 32, 33, 4096, 4097, 65536, random) flowing back to the encoder after 0-2 further blocks, truncation (Close after k bytes of a block; the same decoder then decodes a further complete block), arbitrary byte strings. Oracle: decoded == encoded (order, sensitivity), fragmented == whole-block decoding, encoder and decoder dynamic tables identical and within the permitted size after every block, truncation inside a field rejected with only complete fields emitted, no panic; arbitrary bytes: same result as x/net hpack v0.19.0 (differential, sampled - a pure function of the input). Distinct: distinct operation sequences."})
 }
